@@ -26,6 +26,10 @@ BIN_OPS = {ast.Add: "+", ast.Sub: "-", ast.Mult: "*", ast.Div: "/",
            ast.RShift: ">>", ast.MatMult: "@"}
 
 
+NON_NONE_CTORS = frozenset((
+    "Counter", "dict", "list", "set", "frozenset", "tuple", "defaultdict", "OrderedDict",
+    "deque", "str", "int", "float", "bytes", "bool", "sorted", "len", "range"))
+
 class EvalMixin(object):
 
     # -- entry ---------------------------------------------------------------
@@ -377,7 +381,25 @@ class EvalMixin(object):
             # conditions and element are evaluated without forking: they are
             # pure row/field expressions in this code base
             nodes = list(gen.ifs) + list(elt_nodes)
+            pre_facts, pre_pc, n_ev = dict(s.facts), s.pc, len(s.events)
             res = self.eval_seq(nodes, s, frame)
+            if len(res) > 1 and not any(isinstance(v, Outcome) for (_, v) in res) and \
+                    all(all(e["k"] in ("index", "call", "ret", "pure")
+                            for e in s_i.events[n_ev:]) for (s_i, _) in res):
+                # a per-element choice (`a if c else b`): the element is one of
+                # the alternatives; nothing decided per element survives
+                s0 = res[0][0]
+                s0.facts, s0.pc = pre_facts, pre_pc
+                width = len(res[0][1])
+                merged = []
+                for i in range(width):
+                    alts_i = []
+                    for (_, vs) in res:
+                        if vs[i] not in alts_i:
+                            alts_i.append(vs[i])
+                    merged.append(alts_i[0] if len(alts_i) == 1 else
+                                  ("call", "choice", tuple(alts_i), ()))
+                res = [(s0, merged)]
             if len(res) != 1 or isinstance(res[0][1], Outcome):
                 raise AnalysisError("comprehension with branching element "
                                     "(%s:%d)" % (frame.func.module, node.lineno))
@@ -429,6 +451,13 @@ class EvalMixin(object):
                         "func", "class", "db", "reg", "comp", "rows", "conn"):
                 return False
             if x[0] == "obj" and not self.maybe_none(x):
+                return False
+            if x[0] in ("attr", "reg") and x[1][0] == "obj" and isinstance(x[2], str) and \
+                    self.never_none_attr(x[1][1], x[2]):
+                return False
+            if x[0] == "call" and isinstance(x[1], str) and \
+                    x[1].split(".")[-1] in NON_NONE_CTORS:
+                # the result of a container / number / string constructor
                 return False
             if t in state.facts:
                 return state.facts[t]
@@ -488,6 +517,35 @@ class EvalMixin(object):
         while x[0] == "call" and x[1] in ("list", "sorted", "tuple") and x[2]:
             x = x[2][0]
         return x
+
+    def never_none_attr(self, cname, attr):
+        """every assignment `self.<attr> = e` in the class gives a container /
+        number / string constructor result or a literal container"""
+        cache = self.__dict__.setdefault("_never_none", {})
+        if (cname, attr) not in cache:
+            ok, seen = True, False
+            ent = self.repo.classes.get(cname)
+            for meth in (ent[1]["methods"].values() if ent else ()):
+                for n in ast.walk(meth.node):
+                    if not isinstance(n, ast.Assign):
+                        continue
+                    for tg in n.targets:
+                        if isinstance(tg, ast.Attribute) and isinstance(tg.value, ast.Name) \
+                                and tg.value.id == "self" and tg.attr == attr:
+                            seen = True
+                            v = n.value
+                            if isinstance(v, (ast.Dict, ast.List, ast.Set, ast.DictComp,
+                                              ast.ListComp, ast.SetComp, ast.Tuple)):
+                                continue
+                            if isinstance(v, ast.Call) and not v.keywords and (
+                                    (isinstance(v.func, ast.Name) and
+                                     v.func.id in NON_NONE_CTORS) or
+                                    (isinstance(v.func, ast.Attribute) and
+                                     v.func.attr in NON_NONE_CTORS)):
+                                continue
+                            ok = False
+            cache[(cname, attr)] = ok and seen
+        return cache[(cname, attr)]
 
     def maybe_none(self, obj):
         tag = obj[2]
